@@ -124,7 +124,7 @@ DataRecord ==
   LET n == 7 IN
   [kind |-> "data", seed |-> Seed, N |-> n,
    dims |-> [l \in 1..n |-> Dim(l - 1)],
-   filt |-> [l \in 1..n |-> LET f == FiltSet(l - 1) IN IF f = {} THEN <<>> ELSE <<CHOOSE x \in f : TRUE>>],
+   fkind |-> [l \in 1..n |-> FKinds[l - 1]], fp |-> [l \in 1..n |-> FP[l - 1]], fd |-> [l \in 1..n |-> FD[l - 1]],
    A |-> [l \in 1..n |-> Amat[l - 1]], Spre |-> [l \in 1..n |-> Spre[l - 1]], Spost |-> [l \in 1..n |-> Spost[l - 1]],
    Speak |-> [l \in 1..n |-> Speak[l - 1]], C |-> [l \in 1..n |-> Csol[l - 1]],
    Pm |-> [l \in 1..(n - 1) |-> Pmat[l - 1]], Rm |-> [l \in 1..(n - 1) |-> Rmat[l - 1]],
